@@ -8,7 +8,7 @@ PROP = "C12"
 N = {"quick": 8000, "thorough": 120000}
 
 
-def tree_samples(rng):
+def tree_samples(rng, twins=False):
     used = set()
 
     def fresh(n):
@@ -40,6 +40,16 @@ def tree_samples(rng):
         return o
 
     first = obj(rng.choice([1, 2, 3, 3]))
+    if twins:
+        # two sibling sub-objects with identical fields (kept apart only by a number-only merge policy)
+        leaf = {"lat": 1.5, "lon": 2.5} if rng.random() < 0.5 else {f"t{len(used)}": 1, "label": "s"}
+        a, b = fresh(2)
+        host = first
+        if rng.random() < 0.5:
+            inner = [v for v in first.values() if isinstance(v, dict)]
+            host = rng.choice(inner) if inner else first
+        host[a] = dict(leaf)
+        host[b] = dict(leaf) if rng.random() < 0.7 else [dict(leaf)]
     samples = [first]
     if rng.random() < 0.5:
         samples.append({k: v for k, v in first.items() if rng.random() < 0.7} or dict(first))
@@ -55,9 +65,12 @@ def gen_cases_for(seed_, n):
             samples = jc["samples"]
             opts = gen.options(rng, samples, frameworks=["base", "pydantic", "attrs", "dataclasses"])
         else:
-            samples = tree_samples(rng)
+            twins = rng.random() < 0.25
+            samples = tree_samples(rng, twins=twins)
             opts = gen.options(rng, samples, frameworks=["base", "pydantic", "attrs", "dataclasses", "sqlmodel"], allow_dict_opts=False)
             opts["merge"] = rng.choice([[["exact"]], [["exact"]], [["percent", 1.0]], [["number", 50]], opts["merge"]])
+            if twins:
+                opts["merge"] = [["number", rng.choice([10, 50])]]
         cases.append({"i": i, "models": [["Root", samples]], "opts": opts})
     return cases
 
